@@ -21,28 +21,41 @@ EXPLANATION = ("C02: A(a x + y) = a A(x) + A(y) with symbolic complex a; repeate
                "outputs; after every call each argument array and each array captured by the operator equals its pre-state.")
 
 
+def _arr(v, shape, V):
+    """NumPy arithmetic on 0-d arrays yields scalars, which Linop.__call__ would take for scalar multipliers: hand operators arrays"""
+    return np.asarray(v, dtype=object if V.symbolic else None).reshape(tuple(shape))
+
+
 def h_op(cfg, V):
     params = []
     A = C.build(cfg["spec"], V, params=params)
     x = V.array("x", A.ishape)
     y = V.array("y", A.ishape)
     z = V.array("z", A.oshape)
+    w = V.array("w", A.oshape)
     a = V.scalar("a", True)
     snap = [(n, np.array(p, copy=True)) for n, p in params]
-    x0, y0, z0 = x.copy(), y.copy(), z.copy()
+    x0, y0, z0, w0 = x.copy(), y.copy(), z.copy(), w.copy()
     Ax = A(x)
     Ax_val = np.array(Ax, copy=True)
-    lhs = A(a * x + y)
+    lhs = A(_arr(a * x + y, A.ishape, V))
     rhs = a * Ax + A(y)
     obl = [("linear", O.eq(lhs, rhs))]
     AH = A.H
-    AH(z)
+    AHz = AH(z)
+    AHz_val = np.array(AHz, copy=True)
     N = A.N
-    N(x)
+    Nx = N(x)
+    Nx_val = np.array(Nx, copy=True)
     Ax2 = A(x)
     obl.append(("deterministic", O.eq(Ax2, Ax_val)))
     obl.append(("first_output_intact", O.eq(Ax, Ax_val)))
-    obl.append(("input_unchanged", O.all_([O.eq(x, x0), O.eq(y, y0), O.eq(z, z0)])))
+    # the adjoint and the normal operator are linear and deterministic too (the statement covers A, A.H, A.N)
+    obl.append(("adjoint_linear", O.eq(AH(_arr(a * z + w, A.oshape, V)), a * AHz_val + AH(w))))
+    obl.append(("normal_linear", O.eq(N(_arr(a * x + y, A.ishape, V)), a * Nx_val + N(y))))
+    obl.append(("adjoint_deterministic", O.all_([O.eq(A.H(z), AHz_val), O.eq(AHz, AHz_val)])))
+    obl.append(("normal_deterministic", O.all_([O.eq(A.N(x), Nx_val), O.eq(Nx, Nx_val)])))
+    obl.append(("input_unchanged", O.all_([O.eq(x, x0), O.eq(y, y0), O.eq(z, z0), O.eq(w, w0)])))
     obl.append(("parameters_unchanged", O.all_([O.eq(p, s) for (n, p), (_, s) in zip(params, snap)])))
     return obl
 
